@@ -46,8 +46,6 @@ package interp // import "golang.org/x/tools/go/ssa/interp"
 
 import (
 	"fmt"
-	"strings"
-	"time"
 	"go/token"
 	"go/types"
 	"log"
@@ -55,7 +53,9 @@ import (
 	"reflect"
 	"runtime"
 	"slices"
+	"strings"
 	"sync/atomic"
+	"time"
 	_ "unsafe"
 
 	"golang.org/x/tools/go/ssa"
